@@ -100,9 +100,10 @@ func HarnessC07ProviderCycle() {
 			return
 		}
 		w := want[n%2]
-		req, _ := a.(interface {
+		req, sample := a.(interface {
 			Request() (*http.Request, *netsample.Sample)
 		}).Request()
+		vCheck("Y2.sample.tag.is.the.entrys", sample.Tags() == w.tag)
 		vCheck("Y2.method", req.Method == w.method)
 		vCheck("Y2.path", req.URL.Path == w.path)
 		vCheck("Y2.header", req.Header.Get("H") == w.hdr)
